@@ -298,7 +298,7 @@ func TestC10(t *testing.T) {
 			x ^= x << 17
 			return int(x>>33) % n
 		}
-		nb := ev.Pick(24, 400)
+		nb := ev.Pick(40, 600)
 		for i := 0; i < nb; i++ {
 			total := []int{1 << 16, 1 << 18, 1<<18 + 1}[next(3)]
 			h := 64 + next(1200)
@@ -307,8 +307,9 @@ func TestC10(t *testing.T) {
 			if i%4 == 0 {
 				par = []int{h, h + 1, 11, 13}[next(4)]
 			}
-			st := []string{"RGBA64", "NRGBA", "RGBA", "YCbCr", "NRGBA64"}[next(5)]
-			s := img.Spec{Type: st, Ratio: next(6), Rect: [4]int{1, 2, 1 + w, 2 + h}, Parent: [4]int{1, 2, 1 + w, 2 + h}, Fill: "prng", Seed: uint64(i) + ev.Seed()}
+			st := append([]string{"RGBA64", "NRGBA", "RGBA", "NRGBA64"}, img.Types...)[next(4+len(img.Types))]
+			// more pixels than a type has values, with the extreme values present (ff) or spread (ramp, prng)
+			s := img.Spec{Type: st, Ratio: next(6), Rect: [4]int{1, 2, 1 + w, 2 + h}, Parent: [4]int{1, 2, 1 + w, 2 + h}, Fill: []string{"prng", "prng", "ff", "ramp", "rowbands"}[next(5)], Seed: uint64(i) + ev.Seed(), PalN: 256}
 			d := img.Spec{Type: dstTypes[next(4)], Rect: [4]int{-2, 3, -2 + w, 3 + h}, Parent: [4]int{-2, 3, -2 + w, 3 + h}, Fill: "ramp", Seed: 3}
 			c := Case{Src: s, Dst: d, Par: par, Transform: Transforms[next(len(Transforms))]}
 			if i%6 == 5 && (st == "RGBA64" || st == "NRGBA" || st == "RGBA" || st == "NRGBA64") {
